@@ -88,7 +88,7 @@ static inline void gen_dyn_header(struct bw *w, int bfinal, const uint8_t *ll_le
 	uint8_t all[320]; int n = hlit + hdist;
 	memcpy(all, ll_len, hlit); memcpy(all + hlit, d_len, hdist);
 	uint8_t cl[19]; uint16_t clc[19];
-	if (style == 0) { for (int i = 0; i < 16; i++) cl[i] = 4; cl[16] = cl[17] = cl[18] = 0; }
+	if (style == 0) { for (int i = 0; i < 16; i++) cl[i] = 4; cl[16] = cl[17] = cl[18] = 0; } /* style 1, 2: all 19 symbols have codes */
 	else { for (int i = 0; i < 13; i++) cl[i] = 4; for (int i = 13; i < 19; i++) cl[i] = 5; }
 	gen_canon(cl, 19, clc);
 	int hclen = 19;
@@ -98,7 +98,24 @@ static inline void gen_dyn_header(struct bw *w, int bfinal, const uint8_t *ll_le
 	bw_bits(w, hlit - 257, 5); bw_bits(w, hdist - 1, 5); bw_bits(w, hclen - 4, 4);
 	for (int i = 0; i < hclen; i++) bw_bits(w, cl[order[i]], 3);
 	for (int i = 0; i < n;) {
-		if (style == 1) {
+		if (style == 2 && all[i] == 0) {
+			/* zero runs spelt with symbol 16 ("repeat the previous length") wherever RFC 1951 allows it: after a 17/18 zero run and after an
+			 * explicit 0 - no encoder does this, every decoder must read it as zeros */
+			int run = 1; while (i + run < n && all[i + run] == 0) run++;
+			if (run >= 6) {
+				int t = run - 3 > 6 ? 6 : run - 3, first = run - t;      /* first >= 3 zeros by 17/18, then t in 3..6 by 16 */
+				if (first > 138) { first = 138; t = run - first >= 3 ? (run - first > 6 ? 6 : run - first) : 0; }
+				if (first >= 11) { bw_code(w, clc[18], cl[18]); bw_bits(w, first - 11, 7); } else { bw_code(w, clc[17], cl[17]); bw_bits(w, first - 3, 3); }
+				if (t >= 3) { bw_code(w, clc[16], cl[16]); bw_bits(w, t - 3, 2); } else t = 0;
+				i += first + t; continue;
+			}
+			if (run >= 4) {
+				int t = run - 1 > 6 ? 6 : run - 1;                        /* explicit 0, then 3..6 more by 16 */
+				bw_code(w, clc[0], cl[0]); bw_code(w, clc[16], cl[16]); bw_bits(w, t - 3, 2);
+				i += 1 + t; continue;
+			}
+		}
+		if (style >= 1) {
 			int run = 1; while (i + run < n && all[i + run] == all[i]) run++;
 			if (all[i] == 0 && run >= 3) { int r = run > 138 ? 138 : run; if (r >= 11) { bw_code(w, clc[18], cl[18]); bw_bits(w, r - 11, 7); } else { bw_code(w, clc[17], cl[17]); bw_bits(w, r - 3, 3); } i += r; continue; }
 			if (all[i] != 0 && run >= 4) { bw_code(w, clc[all[i]], cl[all[i]]); int r = run - 1 > 6 ? 6 : run - 1; bw_code(w, clc[16], cl[16]); bw_bits(w, r - 3, 2); i += 1 + r; continue; }
